@@ -177,7 +177,9 @@ def gen_wl(rng):
     r = rng.random()
     if r < 0.12:
         # the options given as numpy scalars / truthy ints instead of Python float / bool
-        wl["max_np"] = rng.choice(["int64", "int32", "0d"] if wl["max_int"] else ["float32", "float64", "0d"])
+        # (no float32: since NumPy 2 a Python float divided by a float32 scalar is computed in float32, which an exact model
+        # cannot follow; integer and float64 scalars and 0-d arrays keep binary64 arithmetic)
+        wl["max_np"] = rng.choice(["int64", "int32", "0d"] if wl["max_int"] else ["float64", "0d"])
     elif r < 0.2:
         wl["diti_repr"] = rng.choice(["int", "npbool"])
         wl["diti_mode"] = rng.random() < 0.7
